@@ -115,6 +115,9 @@ func (e *Env) objValue(obj types.Object) (SV, bool, error) {
 				}
 				obj := vc.globalObj(g)
 				loc := &Loc{obj, IntLit(0), o.Type()}
+				if _, isArr := o.Type().Underlying().(*types.Array); isArr {
+					return SV{Ty: o.Type(), Loc: loc}, true, nil
+				}
 				return SV{T: vc.load(e.state(), o.Type(), obj, IntLit(0)), Ty: o.Type(), Loc: loc}, true, nil
 			}
 		}
@@ -240,8 +243,10 @@ func (e *Env) eval(x spec.Expr) (SV, error) {
 		if !ok {
 			return SV{}, fmt.Errorf("unknown identifier %q", n.Name)
 		}
-		if v.Loc != nil { // reload in the current state
-			v.T = vc.load(e.state(), v.Loc.Ty, v.Loc.Obj, v.Loc.Off)
+		if v.Loc != nil { // reload in the current state (arrays stay locations: indexed lazily)
+			if _, isArr := v.Loc.Ty.Underlying().(*types.Array); !isArr {
+				v.T = vc.load(e.state(), v.Loc.Ty, v.Loc.Obj, v.Loc.Off)
+			}
 		}
 		return v, nil
 	case *spec.Unary:
@@ -331,6 +336,8 @@ func (e *Env) eval(x spec.Expr) (SV, error) {
 		return SV{T: MkSlice(SObj(v.T), Add(SOff(v.T), Mul(lo, IntLit(c))), Sub(hi, lo), Sub(SCap(v.T), lo)), Ty: v.Ty}, nil
 	case *spec.Quant:
 		return e.evalQuant(n)
+	case *spec.Sum:
+		return e.evalSum(n)
 	case *spec.Call:
 		return e.evalCall(n)
 	}
@@ -724,6 +731,16 @@ func (e *Env) evalCall(n *spec.Call) (SV, error) {
 			return SV{T: Gt(SObj(v.T), e.old.Alloc)}, nil
 		}
 		return SV{}, fmt.Errorf("fresh() of %s", v.T.Sort)
+	case "wf":
+		// the type invariant of a value (allocated-or-nil references, ranges, 0 <= len <= cap)
+		v, err := arg(0)
+		if err != nil {
+			return SV{}, err
+		}
+		if v.Ty == nil {
+			return SV{}, fmt.Errorf("wf() of untyped value")
+		}
+		return SV{T: vc.tt.wf(v.Ty, v.T, e.state().Alloc)}, nil
 	case "allocated":
 		v, err := arg(0)
 		if err != nil {
@@ -900,4 +917,227 @@ func (e *Env) lookupType(s string) (types.Type, error) {
 		t = types.NewPointer(t)
 	}
 	return t, nil
+}
+
+// ---- sums ----
+
+type sumInst struct {
+	fn   string
+	lo   Term
+	hi   Term
+	body string // term text with placeholder ph
+	ph   string
+}
+
+func (s *sumInst) at(i string) string { return strings.ReplaceAll(s.body, s.ph, i) }
+
+// evalSum encodes sum(i in lo..hi, body) as a recursive SMT function of the
+// upper bound, defined in the current state.  Instances of the same source
+// expression evaluated in different states are related by instances of the
+// extensionality lemma  (forall i in lo..m: body1(i) == body2(i)) ==> sum1(m) == sum2(m),
+// a theorem of the recursive definition (induction on m).
+func (e *Env) evalSum(n *spec.Sum) (SV, error) {
+	vc := e.vc
+	lo, err := e.eval(n.Lo)
+	if err != nil {
+		return SV{}, err
+	}
+	hi, err := e.eval(n.Hi)
+	if err != nil {
+		return SV{}, err
+	}
+	vc.nfresh++
+	ph := fmt.Sprintf("SUMIDX%d_", vc.nfresh)
+	mark := len(vc.cmds)
+	inner := e.with(n.Var, SV{T: Term{ph, SInt}})
+	body, err := inner.eval(n.Body)
+	if err != nil {
+		return SV{}, err
+	}
+	if body.T.Sort != SInt {
+		return SV{}, fmt.Errorf("sum body must be an integer: %s", n.Body)
+	}
+	for _, c := range vc.cmds[mark:] {
+		if strings.Contains(c, ph) {
+			return SV{}, fmt.Errorf("sum body too complex (needs intermediate definitions): %s", n.Body)
+		}
+	}
+	// identical sum (same body over the same state, same bounds) already instantiated: reuse it
+	canon := strings.ReplaceAll(body.T.S, ph, "#") + "|" + lo.T.S
+	if old, ok := vc.sumCache[canon]; ok {
+		if old.hi.S == hi.T.S {
+			return SV{T: Term{fmt.Sprintf("(%s %s)", old.fn, hi.T.S), SInt}}, nil
+		}
+	}
+	inst := &sumInst{fn: vc.fresh("sum"), lo: lo.T, hi: hi.T, body: body.T.S, ph: ph}
+	vc.sumCache[canon] = inst
+	// The partial sums are an uninterpreted function constrained by a few unfoldings of
+	// the recursive definition around the upper bound (the true sum satisfies them all,
+	// so every model of the real execution is kept): sum(m) = m<=lo ? 0 : sum(m-1)+body(m-1).
+	vc.cmd(fmt.Sprintf("(declare-fun %s (Int) Int)", inst.fn))
+	for d := 0; d < 4; d++ {
+		m := Sub(inst.hi, IntLit(int64(d)))
+		m1 := Sub(inst.hi, IntLit(int64(d+1)))
+		vc.cmd(fmt.Sprintf("(assert (= (%s %s) (ite (<= %s %s) 0 (+ (%s %s) %s))))", inst.fn, m.S, m.S, inst.lo.S, inst.fn, m1.S, inst.at(m1.S)))
+	}
+	// non-negativity lemma instance (induction on the bound): all terms >= 0 ==> sum >= 0
+	{
+		vc.nfresh++
+		iv := fmt.Sprintf("si_%d", vc.nfresh)
+		vc.cmd(fmt.Sprintf("(assert (=> (forall ((%s Int)) (=> (and (<= %s %s) (< %s %s)) (>= %s 0))) (>= (%s %s) 0))) ; sum non-negativity lemma instance",
+			iv, inst.lo.S, iv, iv, inst.hi.S, inst.at(iv), inst.fn, inst.hi.S))
+	}
+	// Sums of the same shape (same term structure up to the names of heaps and
+	// slices) are related by lemma instances; both lemmas are theorems of the
+	// recursive definition (induction on the bound), so assuming instances is sound:
+	//   extensionality: lo1==lo2 && (forall i in lo..m: body1(i)==body2(i)) ==> sum1(m)==sum2(m)
+	//   monotonicity:   lo<=a<=b && (forall i in a..b: body(i)>=0)          ==> sum(a)<=sum(b)
+	// key: the source text of the sum plus where its free variables live (so the data-stack sums
+	// are linked with each other but not with the alt-stack sums); a coarser key (source text only)
+	// links a few recent instances across, e.g. a callee's `sc(stack)` with the caller's sums.
+	ast := n.String()
+	key := ast + "|" + e.sumDiscriminator(n)
+	prev := vc.sums[key]
+	var coarseFirst *sumInst
+	if all := vc.sums["#"+sumShape(inst.body, ph)]; len(all) > 0 {
+		coarseFirst = all[0]
+		inPrev := false
+		for _, p := range prev {
+			if p == coarseFirst {
+				inPrev = true
+			}
+		}
+		if !inPrev { // the very first sum of this shape (usually the entry-state total) comes first
+			prev = append([]*sumInst{coarseFirst}, prev...)
+		}
+		extra := 0
+		for k := len(all) - 1; k >= 0 && extra < 2; k-- {
+			found := false
+			for _, p := range prev {
+				if p == all[k] {
+					found = true
+				}
+			}
+			if !found {
+				prev = append(append([]*sumInst{}, prev...), all[k])
+				extra++
+			}
+		}
+	}
+	vc.sums["#"+sumShape(inst.body, ph)] = append(vc.sums["#"+sumShape(inst.body, ph)], inst)
+	own := vc.sums[key]
+	start := 0
+	if len(prev) > 4 {
+		start = len(prev) - 4
+	}
+	for pi, p := range prev {
+		if pi < start && pi != 0 {
+			continue // link to the most recent instances and to the first (entry-state) one
+		}
+		ms := []Term{inst.hi, p.hi}
+		if pi >= len(prev)-2 {
+			for d := int64(1); d <= 3; d++ { // prefixes: supports in-place updates of the last few elements
+				ms = append(ms, Sub(inst.hi, IntLit(d)))
+			}
+		}
+		for _, m := range ms {
+			vc.nfresh++
+			iv := fmt.Sprintf("si_%d", vc.nfresh)
+			hyp := fmt.Sprintf("(and (= %s %s) (forall ((%s Int)) (=> (and (<= %s %s) (< %s %s)) (= %s %s))))",
+				inst.lo.S, p.lo.S, iv, inst.lo.S, iv, iv, m.S, inst.at(iv), p.at(iv))
+			vc.cmd(fmt.Sprintf("(assert (=> %s (= (%s %s) (%s %s)))) ; sum extensionality lemma instance", hyp, inst.fn, m.S, p.fn, m.S))
+		}
+		if inst.hi.S != p.hi.S && pi == 0 { // partial sums against the entry-state total
+			for _, ab := range [][2]Term{{inst.hi, p.hi}, {p.hi, inst.hi}} {
+				for _, s := range []*sumInst{inst, p} {
+					vc.nfresh++
+					iv := fmt.Sprintf("si_%d", vc.nfresh)
+					hyp := fmt.Sprintf("(and (<= %s %s) (<= %s %s) (forall ((%s Int)) (=> (and (<= %s %s) (< %s %s)) (>= %s 0))))",
+						s.lo.S, ab[0].S, ab[0].S, ab[1].S, iv, ab[0].S, iv, iv, ab[1].S, s.at(iv))
+					vc.cmd(fmt.Sprintf("(assert (=> %s (<= (%s %s) (%s %s)))) ; sum monotonicity lemma instance", hyp, s.fn, ab[0].S, s.fn, ab[1].S))
+				}
+			}
+		}
+	}
+	vc.sums[key] = append(own, inst)
+	return SV{T: Term{fmt.Sprintf("(%s %s)", inst.fn, hi.T.S), SInt}}, nil
+}
+
+// sumDiscriminator: the memory locations (offsets) of the identifiers a sum ranges over.
+func (e *Env) sumDiscriminator(n *spec.Sum) string {
+	var ids []string
+	var walk func(x spec.Expr)
+	walk = func(x spec.Expr) {
+		switch t := x.(type) {
+		case *spec.Ident:
+			ids = append(ids, t.Name)
+		case *spec.Unary:
+			walk(t.X)
+		case *spec.Binary:
+			walk(t.X)
+			walk(t.Y)
+		case *spec.Cond:
+			walk(t.C)
+			walk(t.A)
+			walk(t.B)
+		case *spec.Call:
+			for _, a := range t.Args {
+				walk(a)
+			}
+		case *spec.Index:
+			walk(t.X)
+			walk(t.I)
+		case *spec.SliceE:
+			walk(t.X)
+		case *spec.Sel:
+			walk(t.X)
+		}
+	}
+	walk(n.Hi)
+	walk(n.Body)
+	seen := map[string]bool{}
+	var parts []string
+	for _, id := range ids {
+		if seen[id] || id == n.Var {
+			continue
+		}
+		seen[id] = true
+		if sv, ok := e.names[id]; ok && sv.Loc != nil {
+			parts = append(parts, id+"@"+sv.Loc.Off.S)
+		}
+	}
+	return strings.Join(parts, ",")
+}
+
+// sumShape abstracts a body term to its structure: identifiers that are not
+// SMT/prelude function symbols are replaced by "_".
+func sumShape(body, ph string) string {
+	keep := map[string]bool{"select": true, "store": true, "slen": true, "scap": true, "soff": true, "sobj": true, "pobj": true, "poff": true,
+		"imax": true, "imin": true, "ite": true, "and": true, "or": true, "not": true, "mod": true, "div": true, "tdiv": true, "tmod": true,
+		"itag": true, "ipl": true, "slen_": true, "sbyte": true, "pow2": true}
+	var sb strings.Builder
+	i := 0
+	for i < len(body) {
+		c := body[i]
+		if c == '_' || c >= 'a' && c <= 'z' || c >= 'A' && c <= 'Z' {
+			j := i
+			for j < len(body) && (body[j] == '_' || body[j] == '!' || body[j] >= 'a' && body[j] <= 'z' || body[j] >= 'A' && body[j] <= 'Z' || body[j] >= '0' && body[j] <= '9') {
+				j++
+			}
+			tok := body[i:j]
+			switch {
+			case tok == ph:
+				sb.WriteString("#")
+			case keep[tok] || strings.HasPrefix(tok, "St_") || strings.HasPrefix(tok, "mk_"):
+				sb.WriteString(tok)
+			default:
+				sb.WriteString("_")
+			}
+			i = j
+			continue
+		}
+		sb.WriteByte(c)
+		i++
+	}
+	return sb.String()
 }
